@@ -117,12 +117,24 @@ def one(ctx, data, meta=None):
     from docx2python import docx2python
     td = tempfile.mkdtemp(prefix='d2pv-')
     try:
-        with warnings.catch_warnings():
-            warnings.simplefilter('ignore')
-            with docx2python(io.BytesIO(data)) as d0, docx2python(io.BytesIO(data), os.path.join(td, 'img', 'x')) as d1:
-                for attr in ('document', 'document_runs', 'images', 'core_properties', 'comments', 'text'):
-                    if getattr(d0, attr) != getattr(d1, attr):
-                        ctx.fail('passing an image folder changes a returned value', case_payload(data, attribute=attr), None); good = False
+        ATTRS = ('document', 'document_runs', 'images', 'core_properties', 'comments', 'text')
+        def values(folder):
+            out = {}
+            with warnings.catch_warnings():
+                warnings.simplefilter('ignore')
+                try:
+                    with (docx2python(io.BytesIO(data), folder) if folder else docx2python(io.BytesIO(data))) as d:
+                        for attr in ATTRS:
+                            try: out[attr] = ('v', getattr(d, attr))
+                            except Exception as e: out[attr] = ('err', type(e).__name__)
+                except Exception as e:
+                    out = {attr: ('err', 'constructor: ' + type(e).__name__) for attr in ATTRS}
+            return out
+        v0 = values(None); v1 = values(os.path.join(td, 'img', 'x'))
+        for attr in ATTRS:
+            if v0[attr] != v1[attr]:
+                ctx.fail('passing an image folder changes a returned value', case_payload(data, attribute=attr),
+                         {'without_folder': str(v0[attr])[:200], 'with_folder': str(v1[attr])[:200]}); good = False
     except Exception:
         ctx.skipped_raises += 1
     finally:
